@@ -32,7 +32,12 @@ Attrs1 == IF Level = 1 THEN {a \in AttrsAll : a.ext \in {<<>>, <<<<<<97>>, <<98,
 AttrsFew == {Attr({}, FALSE, <<>>), Attr({"size", "perm"}, FALSE, <<>>), Attr({"size", "uidgid", "perm", "time", "ext"}, TRUE, <<<<<<97>>, <<98, 99>>>>>>)}
 Pflags == IF Level = 1 THEN {<<0, 0, 0, 1>>, <<0, 0, 0, 58>>} ELSE {U32n(n) : n \in {0, 1, 2, 3, 26, 63}}
 PairLists == {<<>>, <<<<<<115, 64, 111>>, <<50>>>>>>, <<<<<<97>>, <<49>>>>, <<<<98>>, <<>>>>>>}
+Empty3(n) == [i \in 1..n |-> [name |-> <<>>, long |-> <<>>, attrs |-> Attr({}, FALSE, <<>>)]]
 NameLists == {<<>>,
+              \* entries of the MINIMUM size (12 bytes: two empty strings and a zero flags word): the boundary of every count-vs-length bound
+              Empty3(1), Empty3(2), Empty3(3),
+              <<[name |-> <<47>>, long |-> <<47>>, attrs |-> Attr({}, FALSE, <<>>)]>>,        \* the REALPATH reply for "/"
+              <<[name |-> <<97>>, long |-> <<>>, attrs |-> Attr({}, FALSE, <<>>)], [name |-> <<>>, long |-> <<98>>, attrs |-> Attr({}, FALSE, <<>>)]>>,
               <<[name |-> <<97>>, long |-> <<108, 32, 97>>, attrs |-> Attr({"size", "perm"}, FALSE, <<>>)]>>,
               <<[name |-> <<46>>, long |-> <<>>, attrs |-> Attr({}, FALSE, <<>>)],
                 [name |-> <<128, 255>>, long |-> Long, attrs |-> Attr({"size", "uidgid", "perm", "time", "ext"}, TRUE, <<<<<<97>>, <<98, 99>>>>>>)],
